@@ -86,6 +86,19 @@ TEXT = {
         "note": TB + "Whole-loop theorem not yet proved. F3 (fix entry never verified) is an open finding that also violates C07.",
         "technique": "Lean 4 proof of the fix-search invariants + differential correspondence on recovery patterns",
     },
+    "C02": {
+        "text": "Proved in Lean for every pair of policy states (any key sets, signer sets, thresholds, versions, rule files): "
+                "VerifyNewState accepts a successor only if its root is signed by a threshold of DISTINCT root keys of the predecessor "
+                "(C02_newState_root_signed, via C05_sound and a counting lemma) and only if no version decreases and no rule file "
+                "disappears (C02_newState_versions); LoadState's chain enforces both between every consecutive pair, by induction over "
+                "the log (C02_chain_sound). The whole-verification statement C02_sound_statement is evaluated as a declarative "
+                "predicate (signer counting, reachability of delegated files, dangling files, version monotonicity) on every "
+                "verification the REAL verifier accepts, in full / latest-only / from-entry mode; the model must reproduce every verdict.",
+        "note": TB + "Mergeability mode is covered under C19. F4 (in-range policy entries are not self-verified) is an open finding reproduced "
+                "from corpus/C02 on every run. State.Verify's delegation walk is modelled and correspondence-checked, its soundness "
+                "w.r.t. the declarative selfOK predicate is not yet a theorem.",
+        "technique": "Lean 4 proof (C05 soundness + counting, induction over the chain) + differential correspondence on forged chains",
+    },
 }
 
 NOT_YET = {}
